@@ -17,14 +17,23 @@ tvars == <<l, viol, cnt, ntr, done, cfg>>
 Trace == ndJsonDeserialize(IOEnv.TRACE)
 Ev == Trace[l]
 
-NoCfg == [universe |-> <<>>, custom |-> "-", custom2 |-> "-", wk |-> "-", alias |-> "-"]
+NoCfg == [universe |-> <<>>, custom |-> "-", custom2 |-> "-", custom3 |-> "-", wk |-> "-", wk2 |-> "-", alias |-> "-",
+          vmap |-> <<>>, vkeys |-> <<>>]
 TraceInit == l = 1 /\ viol = {} /\ cnt = <<>> /\ ntr = 0 /\ done = FALSE /\ cfg = NoCfg
 
 uni == cfg.universe
 U   == {uni[j] : j \in DOMAIN uni}
 
+\* value translation registered for a (stable) key name: the scenario's map if the key is listed, else nothing
+VMapOf(key) == IF \E j \in DOMAIN cfg.vkeys : cfg.vkeys[j] = key
+               THEN [s \in {cfg.vmap[j].from : j \in DOMAIN cfg.vmap} |->
+                        cfg.vmap[CHOOSE j \in DOMAIN cfg.vmap : cfg.vmap[j].from = s].to]
+               ELSE <<>>
 AtomOf(x) == [op |-> x.op, S |-> {x.vals[j] : j \in DOMAIN x.vals}, b |-> x.b, mv |-> x.mv]
+\* atoms exactly as logged (serialised entries: already in the provider's vocabulary)
 AtomsOf(xs) == [j \in DOMAIN xs |-> AtomOf(xs[j])]
+\* atoms as read on stable key `key`, whichever spelling (`ka`) each atom's key was written with
+AtomsOn(xs, key) == LET vm == VMapOf(key) IN [j \in DOMAIN xs |-> NormAtom(vm, AtomOf(xs[j]))]
 HasVec(as) == [j \in DOMAIN uni |-> AdmitsAll(as, uni[j])]
 \* coarse witness class of a chain: which kinds of operators it mixes (keeps the number of distinct signatures small)
 OpsSig(as) ==
@@ -40,7 +49,9 @@ F(ok, guard, sig) == IF ok THEN {} ELSE {<<guard, sig>>}
 \* ---------------------------------------------------------------- Case
 \* (all guards take the chain `as` and its semantic Has-vector `want` as LET-bound arguments: TLC caches LET values
 \*  but re-evaluates zero-arity state-level definitions at every use)
-KeyOf(kk) == IF kk = "wk" THEN cfg.wk ELSE IF kk = "custom2" THEN cfg.custom2 ELSE cfg.custom
+KeyOf(kk) == CASE kk = "wk" -> cfg.wk [] kk = "wk2" -> cfg.wk2 [] kk = "custom2" -> cfg.custom2
+                [] kk = "custom3" -> cfg.custom3 [] OTHER -> cfg.custom
+WellKnownKind(kk) == kk \in {"wk", "wk2"}
 Narrow(got, exp) == \A j \in DOMAIN exp : got[j] => exp[j]
 Dir(got, exp) == IF Narrow(exp, got) THEN "wider" ELSE IF Narrow(got, exp) THEN "narrower" ELSE "different"
 
@@ -74,7 +85,7 @@ CDir(got) == IF got THEN "false-compatible:" ELSE "false-incompatible:"
 G_Compatible(e, as, UU) ==
     IF ~K8sDefined(as) THEN {}
     ELSE LET n == Len(as)
-             Sem(c) == SemCompatKey(c.i > 0, SubSeq(as, 1, c.i), TRUE, SubSeq(as, c.i + 1, n), c.au /\ e.kk = "wk", UU)
+             Sem(c) == SemCompatKey(c.i > 0, SubSeq(as, 1, c.i), TRUE, SubSeq(as, c.i + 1, n), c.au /\ WellKnownKind(e.kk), UU)
              Cls(c) == CompatClass(c.i > 0, SubSeq(as, 1, c.i), TRUE, SubSeq(as, c.i + 1, n), UU)
              \* per entry: <<sem, ok, ints>> evaluated once
              R == {<<e.compat[j], Sem(e.compat[j])>> : j \in DOMAIN e.compat}
@@ -90,13 +101,14 @@ G_Compatible(e, as, UU) ==
 \* `ncs` holds the ToNodeClaim outcomes: entry i = n is the NodePool carrying the whole chain, entry i < n a NodePool
 \* carrying the first i atoms plus a pod carrying the rest (added the way the scheduler adds pod requirements).
 \* One signature per event: the first failing aspect in the order values > ToNodeClaim > round trip > absent label.
-G_Serialization(e, as, want, mx) ==
+G_Serialization(e, as, want, mx, asNC) ==
     LET cls == IF HasBound(as) /\ HasNotIn(as) THEN "bounded-notin" ELSE "other"
-        Aspect(ser) == LET sv == HasVec(AtomsOf(ser)) IN IF sv # want THEN Dir(sv, want) ELSE "ok"
-        a1 == Aspect(e.ser)
+        wantNC == HasVec(asNC)      \* ToNodeClaim always runs on the custom key
+        AspectW(ser, w) == LET sv == HasVec(AtomsOf(ser)) IN IF sv # w THEN Dir(sv, w) ELSE "ok"
+        a1 == AspectW(e.ser, want)
         NcAsp(x) == IF ~x.ran THEN "ok"
-                    ELSE IF ~x.panic /\ Aspect(x.ser) # "ok" THEN Aspect(x.ser)
-                    ELSE IF ~x.panicStatic /\ Aspect(x.serStatic) # "ok" THEN Aspect(x.serStatic)
+                    ELSE IF ~x.panic /\ AspectW(x.ser, wantNC) # "ok" THEN AspectW(x.ser, wantNC)
+                    ELSE IF ~x.panicStatic /\ AspectW(x.serStatic, wantNC) # "ok" THEN AspectW(x.serStatic, wantNC)
                     ELSE "ok"
         badNc == {j \in DOMAIN e.ncs : NcAsp(e.ncs[j]) # "ok"}
         asp == IF a1 # "ok" THEN a1
@@ -118,9 +130,10 @@ G_AnyAdmitted(e, as) ==
          "G_C13_AnyAdmitted", cls)
 
 \* no panic in Any() for validated chains, nor in ToNodeClaim for validated pools (+ pods the scheduler admits)
-G_NoPanic(e, as, want) ==
+G_NoPanic(e, as) ==
     LET anyP == e.valid /\ e.anyPanic
         ncP  == \E j \in DOMAIN e.ncs : e.ncs[j].ran /\ (e.ncs[j].panic \/ e.ncs[j].panicStatic)
+        want == HasVec(as)
         onlyNeg == /\ HasBound(as) /\ \E j \in DOMAIN want : want[j]
                    /\ \A j \in DOMAIN want : want[j] => (uni[j].i /\ uni[j].n < 0)
         negLower == \E j \in DOMAIN as : (as[j].op = "Gt" /\ as[j].b + 1 < 0) \/ (as[j].op = "Gte" /\ as[j].b < 0)
@@ -137,17 +150,20 @@ G_Scenario(as, UU) ==
 
 CaseFails ==
     LET e == Ev
-        as == AtomsOf(e.atoms)
+        as == AtomsOn(e.atoms, KeyOf(e.kk))       \* the chain as read on its own (stable) key
+        asNC == AtomsOn(e.atoms, cfg.custom)      \* the chain as read on the custom key (Any / ToNodeClaim part)
         want == HasVec(as)
         mx == MaxMV(as)
         ops == OpsSig(as)
         UU == U
     IN G_New(e, as) \cup G_Intersection(e, as, want, ops) \cup G_HasIntersection(e, want, ops) \cup G_Laws(e, want, mx)
-       \cup G_Compatible(e, as, UU) \cup G_Serialization(e, as, want, mx) \cup G_AnyAdmitted(e, as)
-       \cup G_NoPanic(e, as, want) \cup G_Scenario(as, UU)
+       \cup G_Compatible(e, as, UU) \cup G_Serialization(e, as, want, mx, asNC) \cup G_AnyAdmitted(e, asNC)
+       \cup G_NoPanic(e, asNC) \cup G_Scenario(as, UU)
 
 \* ---------------------------------------------------------------- Multi (several keys per side)
-SideAtoms(xs, k) == LET j == CHOOSE j \in DOMAIN xs : xs[j].kk = k IN AtomsOf(xs[j].atoms)
+\* Every call was repeated e.reps times on the same two Requirements (Go map iteration order is random); okN / okAUN /
+\* intsN / iscN count the nil (compatible) answers.  The guard fails if ANY repetition disagrees with the semantics.
+SideAtoms(xs, k) == LET j == CHOOSE j \in DOMAIN xs : xs[j].kk = k IN AtomsOn(xs[j].atoms, KeyOf(k))
 KeysOf(xs) == {xs[j].kk : j \in DOMAIN xs}
 MultiFails ==
     LET e == Ev
@@ -158,7 +174,7 @@ MultiFails ==
         SA == [k \in KA |-> SideAtoms(e.A, k)]
         SB == [k \in KB |-> SideAtoms(e.B, k)]
         At(S, K, k) == IF k \in K THEN S[k] ELSE <<>>
-        SemKey(k, au) == SemCompatKey(k \in KA, At(SA, KA, k), k \in KB, At(SB, KB, k), au /\ k = "wk", UU)
+        SemKey(k, au) == SemCompatKey(k \in KA, At(SA, KA, k), k \in KB, At(SB, KB, k), au /\ WellKnownKind(k), UU)
         ClsKey == [k \in MK |-> CompatClass(k \in KA, At(SA, KA, k), k \in KB, At(SB, KB, k), UU)]
         \* class of a disagreement: highest-ranked class among the keys on which the semantics says "incompatible"
         ClsOver(K) == IF K = {} THEN "other"
@@ -167,10 +183,15 @@ MultiFails ==
         sem0 == \A k \in MK : SemKey(k, FALSE)
         sem1 == \A k \in MK : SemKey(k, TRUE)
         semI == \A k \in KA \cap KB : SemKey(k, FALSE)
+        Want(sem) == IF sem THEN e.reps ELSE 0
+        \* got is a count: every repetition must agree; "order-dependent" when the repetitions disagree with each other
+        Sig(got, sem, K) == (IF got > 0 /\ got < e.reps THEN "order-dependent:" ELSE "")
+                            \o CDir(~sem) \o ClsOver(K)
     IN IF ~defined THEN {}
-       ELSE F(e.ok = sem0, "G_C12_Compatible", CDir(~sem0) \o ClsOver({k \in MK : ~SemKey(k, FALSE)}))
-            \cup F(e.okAU = sem1, "G_C12_Compatible", CDir(~sem1) \o ClsOver({k \in MK : ~SemKey(k, TRUE)}))
-            \cup F(e.ints = semI, "G_C12_Compatible", CDir(~semI) \o ClsOver({k \in KA \cap KB : ~SemKey(k, FALSE)}))
+       ELSE F(e.okN = Want(sem0), "G_C12_Compatible", Sig(e.okN, sem0, {k \in MK : ~SemKey(k, FALSE)}))
+            \cup F(e.okAUN = Want(sem1), "G_C12_Compatible", Sig(e.okAUN, sem1, {k \in MK : ~SemKey(k, TRUE)}))
+            \cup F(e.iscN = Want(sem1), "G_C12_Compatible", Sig(e.iscN, sem1, {k \in MK : ~SemKey(k, TRUE)}))
+            \cup F(e.intsN = Want(semI), "G_C12_Compatible", Sig(e.intsN, semI, {k \in KA \cap KB : ~SemKey(k, FALSE)}))
 
 \* ---------------------------------------------------------------- bookkeeping
 Key(p) == p[1] \o "|" \o p[2]
@@ -184,7 +205,8 @@ Record(fails) ==
 TraceNext ==
     \/ /\ l <= Len(Trace) /\ l' = l + 1 /\ UNCHANGED done
        /\ \/ (Ev.e = "Cfg" /\ cfg' = [universe |-> Ev.universe, custom |-> Ev.custom, custom2 |-> Ev.custom2,
-                                      wk |-> Ev.wk, alias |-> Ev.alias]
+                                      custom3 |-> Ev.custom3, wk |-> Ev.wk, wk2 |-> Ev.wk2, alias |-> Ev.alias,
+                                      vmap |-> Ev.vmap, vkeys |-> Ev.vkeys]
               /\ ntr' = ntr + 1 /\ UNCHANGED <<viol, cnt>>)
           \* (\E over a singleton: binds the evaluated set of failures once; operator arguments are re-evaluated
           \*  lazily at every use otherwise, which made a step cost |cnt| guard evaluations)
